@@ -51,8 +51,10 @@ import (
 
 // ---------------------------------------------------------------- history
 
-// op is one manager call.  Write ops: newacct rename next extend markused
-// setsynced setsyncednil setbirthday setbdayblock impkey impscript.  Read ops
+// op is one manager call.  Write ops: newacct newacctwo rename next extend
+// markused setsynced setsyncednil setbirthday setbdayblock impkey impscript
+// convert (ConvertToWatchingOnly); not database operations: lock unlock
+// invalidate.  Read ops
 // (also used as the boundary queries): lookup last props lookupname acctname
 // lastacct synced blockhash birthday bdayblock.
 type op struct {
@@ -978,6 +980,14 @@ func apply(ws worlds2, in *inst, rd walletdb.ReadBucket, rw walletdb.ReadWriteBu
 		return answer{K: "ok"}
 	case "invalidate":
 		sm.InvalidateAccountCache(o.Acct)
+		return answer{K: "ok"}
+	case "convert":
+		if a := needW(); a != nil {
+			return *a
+		}
+		if err := m.ConvertToWatchingOnly(rw); err != nil {
+			return errAns(err)
+		}
 		return answer{K: "ok"}
 	case "newacct":
 		if a := needW(); a != nil {
